@@ -127,6 +127,23 @@ func JudgeC16(c *Ctx, h *History, obs []*Obs) ([]Violation, error) {
 				Msg: fmt.Sprintf("inputs are valid by construction, tags %q / constraint %q are complementary and every prior output (%d present) is absent or header-intact, but generation exits %d: %s", tags, constraint, len(o.PriorOutputs), o.Exit, trunc(o.Stderr, 400))})
 			continue
 		}
+		if g.Expect == "ok" && g.Spec != nil {
+			// independent of goverter: every healthy converter of the spec must have been
+			// (re)generated into its predicted file
+			prod := produced(o)
+			missing := ""
+			for i := range g.Spec.Convs {
+				p := g.Spec.Predict(&g.Spec.Convs[i]).Path
+				if _, ok := prod[p]; !ok {
+					missing = fmt.Sprintf("converter %s (declared in %s, guarded declaration=%v) was not generated into %s although the run exited 0", g.Spec.Convs[i].Name, g.Spec.Convs[i].Dir, g.Spec.Convs[i].GuardedDecl, p)
+					break
+				}
+			}
+			if missing != "" {
+				out = append(out, Violation{Property: "C16", Class: "not-regenerated", OpIndex: o.OpIndex, Msg: missing})
+				continue
+			}
+		}
 		ref, err := c.Ref(h.World.Module, o.Inputs, ro)
 		if err != nil {
 			return nil, err
